@@ -566,7 +566,14 @@ func (x *bexec) execTx(line, kind string, t []string) {
 		if cls == "ok" {
 			ans = "ok " + statusNum(pa.Status.Text)
 		}
-		x.emit(line, ans, "claim."+ans, cls == "ok")
+		hcls := "claim." + ans
+		if cls == "ok" && pa.Status.Text == oracletypes.StatusText_STATUS_TEXT_SUCCESS {
+			// shape: the claim that completes the prophecy carries another content than the one that won
+			if oc, err := ethtypes.CreateOracleClaimFromEthClaim(c); err == nil && contentCanon(w, oc.Content) != contentCanon(w, pa.Status.FinalClaim) {
+				hcls = "claim.ok 2 completed-by-conflicting-claim"
+			}
+		}
+		x.emit(line, ans, hcls, cls == "ok")
 		x.chkClaim(t, id, pb, foundB, pa, foundA, cls, balB, supB)
 	case "wl":
 		msg := ethtypes.MsgUpdateWhiteListValidator{CosmosSender: w.acctStr(t[0]), Validator: w.valStr(t[2]), OperationType: t[1]}
